@@ -410,6 +410,13 @@ pub fn new_task<F: Future>(f: F) -> SimTask<F> {
         s.runnable.insert(id);
         s.live.insert(id);
         s.note(id, "spawn");
+        if std::env::var_os("VERIF_SPAWN_BT").is_some() {
+            if let Some(l) = s.log.as_mut() {
+                let bt = std::backtrace::Backtrace::force_capture().to_string();
+                let frames: Vec<&str> = bt.lines().filter(|x| x.contains("datafusion") && !x.contains("common_runtime") && !x.contains("l1::")).take(3).collect();
+                l.push(format!("    spawned by: {}", frames.join(" <- ")));
+            }
+        }
         id
     });
     SimTask { id, fut: Box::pin(f) }
